@@ -12,28 +12,46 @@ emitted together with ``def <name>_supported : Bool := false`` and the reason; t
 ``Src.<name>_translated`` (``<name>_supported = true``) then fails.  Nothing is skipped silently.
 
 Supported subset (see ``Fn`` below; everything else raises ``Unsupported``):
-  statements   assignment to names (also tuple targets, one starred target, parallel tuple assignment),
+  statements   assignment to names (tuple targets, ``head, *rest``, parallel tuple assignment, chained ``a = b = e``),
                annotated and augmented assignment to names, ``if/elif/else``, ``for`` over an iterable (tuple
-               targets, ``break``/``continue``), ``return``, ``raise Cls(...)``, ``assert``, ``pass``,
-               ``try/except Cls`` (no ``else``/``finally``), expression statements that are a doc string,
-               a mutating list method on an *owned* local (``append/extend/insert``), ``yield``/``yield from``
-               (the generator's items are accumulated in a list and returned as a materialised iterator)
-  expressions  constants, names (locals, parameters, module constants, other selected functions, the sentinels of
-               ``_structures``), ``and/or/not`` with Python's value semantics and short circuit, comparisons (also
-               chained), ``is None``/``is not None``, ``in``/``not in``, ``+ - *`` and unary minus, conditional
-               expressions, subscripts and slices with step 1, list/tuple displays, list comprehensions and generator
-               expressions with one ``for`` clause (tuple targets, ``if`` clauses), ``lambda`` as an argument of
-               the supported helpers, f-strings of simple values, attribute access on records, calls of the
-               builtins / methods / ``itertools`` helpers in ``BUILTINS``/``METHODS``/``ITERTOOLS``, calls of other
-               selected functions (positional and keyword arguments, constant defaults), properties and methods
-               of the selected classes resolved through the class's MRO (dynamic dispatch on the run-time class
-               when a subclass overrides the attribute)
+               targets, ``break``/``continue``; a loop variable read after its loop becomes an ordinary local),
+               ``return``, ``raise Cls(...)``, ``assert``, ``pass``, ``try/except Cls`` (no ``else``/``finally``; early
+               ``return`` inside is fine), doc strings, ``logger.debug/info/warning(...)`` (dropped, arguments still
+               evaluated), a mutating list method on an *owned* local (``append/extend/insert/remove``),
+               ``yield``/``yield from`` (items accumulated in a list, returned as a materialised iterator),
+               ``self.x = e`` inside ``__init__`` (functional update of the fresh object; ``__init__`` returns it),
+               ``f = self._get_operator(op)`` followed by ``f(a, b)`` and ``kw = {"k": e}`` followed by ``g(**kw)``
+               (both resolved at translation time)
+  expressions  constants, names (locals, parameters, module constants, the sentinels of ``_structures``,
+               ``NotImplemented``), ``and/or/not`` with Python's value semantics and short circuit, comparisons
+               (chained too; on instances of tracked classes through the translated ``__lt__`` … ``__eq__``),
+               ``is None``/``is not None``, ``in``/``not in``, ``+ - *`` and unary minus, conditional expressions,
+               subscripts and slices with step 1, list/tuple displays, list comprehensions and generator expressions
+               with one ``for`` clause (tuple targets, ``if`` clauses), ``lambda`` as an argument of the supported
+               helpers, f-strings of simple values and of instances of tracked classes with a ``__str__``,
+               attribute access resolved through the class's MRO (property -> translated getter, otherwise instance
+               field; a dispatcher definition on the run-time class name where a tracked subclass overrides it;
+               ``super().prop`` with its instance check), calls of the builtins / methods / ``itertools`` helpers in
+               ``BUILTINS``/``METHODS``/``ITERTOOLS_FN`` (plus ``range``, ``map``, ``max(default=)``, ``min``/``max`` of
+               two, ``isinstance``, ``hash``, ``any``/``all`` of a generator), calls of other functions of the library
+               (translated as well, positional and keyword arguments, constant defaults), ``functools.singledispatch``
+               functions (dispatch on the class of the first argument), constructors of tracked classes (through the
+               translated ``__init__``, or a run-time primitive listed in ``PRIMITIVE_INITS``: ``Version(...)``),
+               ``re.match(<literal>, s)`` / ``<compiled global>.search(s)`` for the pattern texts the run-time has a
+               matcher for, reads of the world outside (``EXTERNAL_READS``/``EXTERNAL_CALLS``/``EXTERNAL_HASATTR``: the
+               function then takes the environment table ``PyRt.Env`` as its first parameter)
 Checks made by the translator (a failure makes the function unsupported):
-  * every local is definitely assigned before each use (so the ``PyVal.none`` a hoisted ``let mut`` starts
-    with is never observed);
-  * a list that is mutated in place is *owned*: only ever bound to freshly built lists, and never used in a
-    context that could create an alias (so the functional update ``x ← PyRt.list_append x e`` is faithful);
-  * parameters are never mutated in place.
+  * a local that may be unassigned when read is read through ``PyRt.bound`` (``UnboundLocalError`` as in CPython);
+    hoisted locals start as ``PyVal.unbound``;
+  * a list that is mutated in place is *owned*: from the last top-level ``x = <fresh list>`` before its first
+    mutation on it is only bound to freshly built lists and never used where an alias could be created (so the
+    functional update ``x ← PyRt.list_append x e`` is faithful); it may be passed to a library function whose
+    return annotation is a scalar;
+  * the reflective helper ``Specifier._get_operator`` is evaluated at translation time only while its source text
+    is exactly the text recorded in ``PARTIAL_EVAL_GUARDS``;
+  * recursion between translated functions is refused.
+Trusted for resolving attribute access: parameter annotations, the return annotations of library helpers and
+``self.x = C(...)`` in ``__init__`` (they decide which class's MRO is consulted).
 """
 from __future__ import annotations
 
